@@ -52,7 +52,9 @@ TagLen == 16
 Schemes == {"sr25519", "ed25519", "secp256k1"}
 KeyLen(s) == IF s = "ed25519" THEN 64 ELSE 32
 PwClasses == {"empty", "ascii", "long", "unicode"}
-DpwKinds == {"same", "other", "append0", "droplast", "empty"}
+(* besides an unrelated password: near misses a key derivation must NOT normalise away (a     *)
+(* trailing zero byte, line terminators, a blank, a dropped last byte)                       *)
+DpwKinds == {"same", "other", "append0", "droplast", "empty", "appendnl", "appendcrlf", "appendspace", "prependspace"}
 
 (* the decryption password equals the encryption password *)
 SamePw(c) == c.dpw = "same" \/ (c.dpw = "empty" /\ c.pw = "empty")
